@@ -45,6 +45,9 @@ impl Check for Upgrade {
         steps.push(Step::RealUpgradeAtEnd { op: if rng.chance(80) { 0 } else { 1 }, signed: !rng.chance(15) });
         (Cfg {}, steps)
     }
+    fn probes(&self, _prop: &str) -> std::vec::Vec<&'static str> {
+        vec!["probe.real_upgrade_executed"]
+    }
     fn execute(&self, _cfg: &Cfg, steps: &[Step], st: &mut Stats) -> Result<(), Violation> {
         let w = W::new(2, 100, 16);
         let e = &w.e;
